@@ -108,7 +108,6 @@ class FitResult(HoloPyObject):
         if hasattr(self.data, 'original_dims'):
             # dealing with subset data
             original_dims = self.data.original_dims
-            # can't currently handle non-0 values of z, as in detector_grid
             x = original_dims['x']
             y = original_dims['y']
             shape = (len(x), len(y))
@@ -118,6 +117,9 @@ class FitResult(HoloPyObject):
             schema = copy_metadata(self.data, schema, do_coords=False)
             schema['x'] = x
             schema['y'] = y
+            if 'z' in original_dims:
+                # detector_grid puts the detector at z = 0
+                schema['z'] = original_dims['z']
         else:
             schema = self.data
         return self.model.forward(pars, schema)
